@@ -1,6 +1,7 @@
 package main
 
 import (
+	"sort"
 	"fmt"
 	"go/token"
 	"go/types"
@@ -952,15 +953,19 @@ func (fr *Frame) rangeInit(x *ssa.Range, st *State) Val {
 	return Val{T: x.Type(), Iter: &IterVal{Map: m, Visited: g, KeyT: mt.Key(), ValT: mt.Elem()}}
 }
 
-func (fr *Frame) rangesOf() []*ssa.Range {
+func (fr *Frame) rangesOf() []*ssa.Range { return rangesInSourceOrder(fr.fn) }
+
+func rangesInSourceOrder(fn *ssa.Function) []*ssa.Range {
 	var out []*ssa.Range
-	for _, b := range fr.fn.Blocks {
+	for _, b := range fn.Blocks {
 		for _, in := range b.Instrs {
 			if r, ok := in.(*ssa.Range); ok {
 				out = append(out, r)
 			}
 		}
 	}
+	// numbered in source order (block order differs for loops that follow a nest of loops)
+	sort.SliceStable(out, func(i, j int) bool { return out[i].Pos() < out[j].Pos() })
 	return out
 }
 
